@@ -133,11 +133,11 @@ func exact(b []byte) []byte {
 	return c
 }
 
-// ---------- structural comparison (nil == empty, derived/func fields skipped) ----------
+// ---------- structural comparison (nil == empty; func fields skipped; optional skip of derived fields) ----------
 
 var skipFields = map[string]bool{"AlarmSignDetails": true, "StatusSignDetails": true, "CustomAdditionContentFunc": true, "ParamParseBeforeFunc": true}
 
-func diffValues(path string, a, b reflect.Value) string {
+func diffValues(path string, a, b reflect.Value, skipDerived bool) string {
 	if a.Type() != b.Type() {
 		return fmt.Sprintf("%s: type %v vs %v", path, a.Type(), b.Type())
 	}
@@ -149,14 +149,14 @@ func diffValues(path string, a, b reflect.Value) string {
 			}
 			return ""
 		}
-		return diffValues(path, a.Elem(), b.Elem())
+		return diffValues(path, a.Elem(), b.Elem(), skipDerived)
 	case reflect.Struct:
 		for i := 0; i < a.NumField(); i++ {
 			f := a.Type().Field(i)
-			if skipFields[f.Name] || a.Field(i).Kind() == reflect.Func {
+			if (skipDerived && skipFields[f.Name]) || a.Field(i).Kind() == reflect.Func {
 				continue
 			}
-			if d := diffValues(path+"."+f.Name, a.Field(i), b.Field(i)); d != "" {
+			if d := diffValues(path+"."+f.Name, a.Field(i), b.Field(i), skipDerived); d != "" {
 				return d
 			}
 		}
@@ -166,7 +166,7 @@ func diffValues(path string, a, b reflect.Value) string {
 			return fmt.Sprintf("%s: length %d vs %d", path, a.Len(), b.Len())
 		}
 		for i := 0; i < a.Len(); i++ {
-			if d := diffValues(fmt.Sprintf("%s[%d]", path, i), a.Index(i), b.Index(i)); d != "" {
+			if d := diffValues(fmt.Sprintf("%s[%d]", path, i), a.Index(i), b.Index(i), skipDerived); d != "" {
 				return d
 			}
 		}
@@ -180,22 +180,40 @@ func diffValues(path string, a, b reflect.Value) string {
 			if !bv.IsValid() {
 				return fmt.Sprintf("%s: key %v missing", path, k)
 			}
-			if d := diffValues(fmt.Sprintf("%s[%v]", path, k), a.MapIndex(k), bv); d != "" {
+			if d := diffValues(fmt.Sprintf("%s[%v]", path, k), a.MapIndex(k), bv, skipDerived); d != "" {
 				return d
 			}
 		}
 		return ""
-	case reflect.Func:
+	case reflect.Func, reflect.Chan, reflect.UnsafePointer:
 		return ""
-	default:
-		if !reflect.DeepEqual(a.Interface(), b.Interface()) {
-			return fmt.Sprintf("%s: %#v vs %#v", path, a.Interface(), b.Interface())
+	case reflect.Bool:
+		if a.Bool() != b.Bool() {
+			return fmt.Sprintf("%s: %v vs %v", path, a.Bool(), b.Bool())
 		}
-		return ""
+	case reflect.Int, reflect.Int8, reflect.Int16, reflect.Int32, reflect.Int64:
+		if a.Int() != b.Int() {
+			return fmt.Sprintf("%s: %d vs %d", path, a.Int(), b.Int())
+		}
+	case reflect.Uint, reflect.Uint8, reflect.Uint16, reflect.Uint32, reflect.Uint64, reflect.Uintptr:
+		if a.Uint() != b.Uint() {
+			return fmt.Sprintf("%s: %#x vs %#x", path, a.Uint(), b.Uint())
+		}
+	case reflect.String:
+		if a.String() != b.String() {
+			return fmt.Sprintf("%s: %q vs %q", path, a.String(), b.String())
+		}
+	case reflect.Float32, reflect.Float64:
+		if a.Float() != b.Float() {
+			return fmt.Sprintf("%s: %v vs %v", path, a.Float(), b.Float())
+		}
 	}
+	return ""
 }
 
-func diff(a, b any) string { return diffValues("", reflect.ValueOf(a), reflect.ValueOf(b)) }
+// diff compares message values ignoring derived flag structs (C07); diffFull compares everything (C03).
+func diff(a, b any) string     { return diffValues("", reflect.ValueOf(a), reflect.ValueOf(b), true) }
+func diffFull(a, b any) string { return diffValues("", reflect.ValueOf(a), reflect.ValueOf(b), false) }
 
 // ---------- value generators for the two-way types (C07) ----------
 
